@@ -29,6 +29,19 @@ from sim import faults, observe, structure  # noqa: E402
 DEFAULT_RECURSION_LIMIT = 1000
 
 
+class Quiet:
+    """Suspends the fault tracer while the harness itself calls into tealer to *observe* (str() of
+    enums and instructions, to_json, property getters): an injected fault must land in the operation,
+    never in the observation of its result."""
+
+    def __enter__(self) -> None:
+        self.prev = sys.gettrace()  # pylint: disable=attribute-defined-outside-init
+        sys.settrace(None)
+
+    def __exit__(self, *a: Any) -> None:
+        sys.settrace(self.prev)
+
+
 class Session:
     def __init__(self, spec: Dict[str, Any], scratch: str, out: Any) -> None:
         self.spec = spec
@@ -166,15 +179,17 @@ class Session:
         self.handles[h] = obj
         self.handle_kind[h] = kind
         if baseline and kind in ("teal", "function"):
-            self.base_digest[h] = self._digest_handle(h)
+            with Quiet():
+                self.base_digest[h] = self._digest_handle(h)
 
     # ------------------------------------------------------------------ operations
     def op_parse(self, op: Dict[str, Any], ev: Dict[str, Any]) -> None:
         from tealer.teal.parse_teal import parse_teal
 
         teal = parse_teal(self.source(op["c"]), op["c"])
-        g = observe.teal_graph(teal)
-        ev["obs"] = {"teal": observe.digest(g), "outside": observe.outside_fragment(teal)}
+        with Quiet():
+            g = observe.teal_graph(teal)
+            ev["obs"] = {"teal": observe.digest(g), "outside": observe.outside_fragment(teal)}
         if ev["i"] in self.want_full:
             ev["full"] = {"teal": g}
         if op.get("adj"):
@@ -189,16 +204,18 @@ class Session:
 
         teal = self.handles[op["h"]]
         function = construct_function(teal, list(op["path"]), op.get("name"))
-        snap = observe.function_snapshot(function)
-        ev["obs"] = {
-            "graph": observe.digest(snap["graph"]),
-            "ctx": observe.digest(snap["ctx"]),
-        }
-        ev["structure"] = structure.check_structure(teal, function, list(op["path"]))
+        with Quiet():
+            snap = observe.function_snapshot(function)
+            ev["obs"] = {
+                "graph": observe.digest(snap["graph"]),
+                "ctx": observe.digest(snap["ctx"]),
+            }
+            ev["structure"] = structure.check_structure(teal, function, list(op["path"]))
         ev["nblocks"] = len(function.blocks)
         ev["nsubs"] = len(function.subroutines)
         if ev["i"] in self.want_full:
-            ev["full"] = {"graph": snap["graph"], "ctx": observe.contexts_compact(function)}
+            with Quiet():
+                ev["full"] = {"graph": snap["graph"], "ctx": observe.contexts_compact(function)}
         if op.get("f"):
             self._register(op["f"], "function", function)
 
@@ -206,7 +223,8 @@ class Session:
         self, tealer: Any, function: Any, runs: Optional[List[str]], ev: Dict[str, Any]
     ) -> None:
         full = ev["i"] in self.want_full
-        ctx0 = observe.digest(observe.function_contexts(function)) if function is not None else ""
+        with Quiet():
+            ctx0 = observe.digest(observe.function_contexts(function)) if function is not None else ""
         ev["obs"]["ctx"] = ctx0
         dets: List[List[Any]] = []
         ctx_after: List[str] = []
@@ -214,30 +232,33 @@ class Session:
         by_name = {d.NAME: d for d in tealer.detectors}
         if runs is None:
             results = tealer.run_detectors()
-            for d, res in zip(tealer.detectors, results):
-                o = observe.output_obs(res)
-                dets.append([d.NAME, observe.digest(o)])
-                if full:
-                    fullobs[d.NAME] = o
-            if function is not None:
-                ctx_after.append(observe.digest(observe.function_contexts(function)))
+            with Quiet():
+                for d, res in zip(tealer.detectors, results):
+                    o = observe.output_obs(res)
+                    dets.append([d.NAME, observe.digest(o)])
+                    if full:
+                        fullobs[d.NAME] = o
+                if function is not None:
+                    ctx_after.append(observe.digest(observe.function_contexts(function)))
         else:
             for name in runs:
                 if name not in by_name:
                     continue
                 res = by_name[name].detect()
-                o = observe.output_obs(res)
-                dets.append([name, observe.digest(o)])
-                if full:
-                    fullobs[name] = o
-                if function is not None:
-                    ctx_after.append(observe.digest(observe.function_contexts(function)))
+                with Quiet():
+                    o = observe.output_obs(res)
+                    dets.append([name, observe.digest(o)])
+                    if full:
+                        fullobs[name] = o
+                    if function is not None:
+                        ctx_after.append(observe.digest(observe.function_contexts(function)))
         ev["obs"]["dets"] = dets
         ev["obs"]["ctx_after"] = ctx_after
         if full:
             ev["full"] = {"dets": fullobs}
             if function is not None:
-                ev["full"]["ctx"] = observe.contexts_compact(function)
+                with Quiet():
+                    ev["full"]["ctx"] = observe.contexts_compact(function)
 
     def op_single(self, op: Dict[str, Any], ev: Dict[str, Any]) -> None:
         from tealer.utils.command_line.common import init_tealer_from_single_contract
@@ -258,6 +279,8 @@ class Session:
     def op_rerun(self, op: Dict[str, Any], ev: Dict[str, Any]) -> None:
         tealer = self.handles[op["h"]]
         function = self.handles.get(op["h"] + ".f")
+        if function is None:
+            function = list(list(tealer.contracts.values())[0].functions.values())[0]
         ev["obs"] = {}
         have = [d.NAME for d in tealer.detectors]
         for name in op.get("dets", []):
@@ -365,6 +388,8 @@ class Session:
         full = ev["i"] in self.want_full
         fulls: Dict[str, Any] = {}
         structs: Dict[str, List[str]] = {}
+        quiet = Quiet()
+        quiet.__enter__()
         for cname in sorted(tealer.contracts):
             teal = tealer.contracts[cname]
             for fname in sorted(teal.functions):
@@ -388,15 +413,17 @@ class Session:
                 # contract_type is set by the config after parsing: baseline taken here
                 self._register(op["h"] + "." + cname, "teal", teal)
         ev["structure"] = structs
+        quiet.__exit__()
         for name in op.get("dets", []):
             tealer.register_detector(self.detectors[name])
         dets = []
         results = tealer.run_detectors()
-        for d, res in zip(tealer.detectors, results):
-            o = observe.output_obs(res)
-            dets.append([d.NAME, observe.digest(o)])
-            if full:
-                fulls["det:" + d.NAME] = o
+        with Quiet():
+            for d, res in zip(tealer.detectors, results):
+                o = observe.output_obs(res)
+                dets.append([d.NAME, observe.digest(o)])
+                if full:
+                    fulls["det:" + d.NAME] = o
         ev["obs"]["dets"] = dets
         if full:
             ev["full"] = fulls
